@@ -1,8 +1,9 @@
 import Nv.Proofs.C16Sess
 /-!
 C16 — what the peer reads: in order always (`GInv`), and complete when nothing but a local Close
-ends the session (`FInv`). Proved configuration.
+ends the session (`FOk`). Proved configuration, exit callback returns.
 -/
+set_option linter.unusedSimpArgs false
 namespace Nv.C16
 
 /-- the item being written, if any -/
@@ -12,7 +13,7 @@ def inflight (s : Sess) : List Nat :=
   | _ => []
 
 def sendLooping (s : Sess) : Prop := s.sendPc = .idle ∨ ∃ x, s.sendPc = .writing x
-def sendLeft (s : Sess) : Prop := s.sendPc = .quitting ∨ s.sendPc = .done
+def sendLeft (s : Sess) : Prop := (∃ st, s.sendPc = .quitting st) ∨ s.sendPc = .done
 
 /-- ordering invariant (holds whatever happens) -/
 structure GInv (s : Sess) : Prop where
@@ -22,22 +23,16 @@ structure GInv (s : Sess) : Prop where
 /-- completeness invariant: as long as no terminating event other than a local Close happened -/
 structure FInv (s : Sess) : Prop where
   clean : s.peerClosed = false ∧ s.wfault = false
-  recv : s.recvPc = .reading ∨ s.onceDone = true
-  once : s.onceDone = true → sendLeft s
+  recv : s.recvPc = .reading ∨ s.onceTaken = true
+  once : s.onceTaken = true → sendLeft s
   left : sendLeft s → s.delivered = s.accepted.flatten ∧ s.qClosed = true
+  rown : ∀ p st, s.recvPc = .quitting p st → st = .enter   -- the receive loop never runs the body of the once
 
 theorem ginv_init : GInv Sess.init := by
   constructor <;> simp [Sess.init, inflight]
 
 theorem finv_init : FInv Sess.init := by
   constructor <;> simp [Sess.init, sendLeft]
-
-theorem quitP_same (s : Sess) :
-    (quitP s).q = s.q ∧ (quitP s).sendPc = s.sendPc ∧ (quitP s).recvPc = s.recvPc ∧ (quitP s).delivered = s.delivered ∧
-    (quitP s).accepted = s.accepted ∧ (quitP s).peerClosed = s.peerClosed ∧ (quitP s).wfault = s.wfault ∧
-    (quitP s).faulted = s.faulted ∧ (quitP s).onceDone = true ∧ (s.qClosed = true → (quitP s).qClosed = true) ∧
-    (s.onceDone = true → quitP s = s) := by
-  unfold quitP; split <;> simp_all
 
 theorem ginv_env {s : Sess} (h : GInv s) (e : Env) : GInv (envStep s e) := by
   obtain ⟨g1, g2⟩ := h
@@ -55,9 +50,13 @@ theorem ginv_env {s : Sess} (h : GInv s) (e : Env) : GInv (envStep s e) := by
   all_goals (try split)
   all_goals (exact ⟨g1, g2⟩)
 
+/-- a step of the send loop inside `quit` changes nothing the ordering invariant looks at -/
+theorem ginv_left {s s' : Sess} (h : GInv s) (hd : s'.delivered = s.delivered) (ha : s'.accepted = s.accepted)
+    (hl : ¬ sendLooping s') : GInv s' :=
+  ⟨fun l => absurd l hl, by rw [hd, ha]; exact h.pref⟩
+
 theorem ginv_sendStepP {s s' : Sess} (h : GInv s) (hs : sendStepP s = some s') : GInv s' := by
   obtain ⟨g1, g2⟩ := h
-  have hq := quitP_same s
   unfold sendStepP at hs
   split at hs
   · rename_i hpc
@@ -65,8 +64,7 @@ theorem ginv_sendStepP {s s' : Sess} (h : GInv s) (hs : sendStepP s = some s') :
     split at hs
     · split at hs
       · cases hs
-        refine ⟨?_, g2⟩
-        intro hl'; rcases hl' with h' | ⟨x, h'⟩ <;> simp at h'
+        exact ginv_left ⟨g1, g2⟩ rfl rfl (by intro l; rcases l with l | ⟨x, l⟩ <;> simp at l)
       · cases hs
     · rename_i x rest hq'
       split at hs
@@ -82,8 +80,7 @@ theorem ginv_sendStepP {s s' : Sess} (h : GInv s) (hs : sendStepP s = some s') :
     have hl := g1 (Or.inr ⟨x, hpc⟩)
     split at hs
     · cases hs
-      refine ⟨?_, g2⟩
-      intro hl'; rcases hl' with h' | ⟨x, h'⟩ <;> simp at h'
+      exact ginv_left ⟨g1, g2⟩ rfl rfl (by intro l; rcases l with l | ⟨x, l⟩ <;> simp at l)
     · split at hs
       · cases hs
         simp only [inflight, hpc] at hl
@@ -91,41 +88,40 @@ theorem ginv_sendStepP {s s' : Sess} (h : GInv s) (hs : sendStepP s = some s') :
         · intro _; simp [inflight]; rw [← hl]; simp [List.append_assoc]
         · simp only; rw [← hl]; simp [List.append_assoc]
       · cases hs
-  · rename_i hpc
-    cases hs
-    constructor
-    · intro hl'; rcases hl' with h' | ⟨x, h'⟩ <;> simp at h'
-    · simp only [hq.2.2.2.1, hq.2.2.2.2.1]; exact g2
-  · cases hs
-
-theorem ginv_recvStepP {s s' : Sess} (h : GInv s) (hs : recvStepP s = some s') : GInv s' := by
-  obtain ⟨g1, g2⟩ := h
-  have hq := quitP_same s
-  unfold recvStepP at hs
-  split at hs
   · split at hs
-    · cases hs; exact ⟨g1, g2⟩
+    · cases hs; exact ginv_left ⟨g1, g2⟩ rfl rfl (by intro l; rcases l with l | ⟨x, l⟩ <;> simp at l)
+    · split at hs
+      · cases hs
+      · cases hs; exact ginv_left ⟨g1, g2⟩ rfl rfl (by intro l; rcases l with l | ⟨x, l⟩ <;> simp at l)
+  · cases hs; exact ginv_left ⟨g1, g2⟩ rfl rfl (by intro l; rcases l with l | ⟨x, l⟩ <;> simp at l)
+  · cases hs; exact ginv_left ⟨g1, g2⟩ rfl rfl (by intro l; rcases l with l | ⟨x, l⟩ <;> simp at l)
+  · cases hs; exact ginv_left ⟨g1, g2⟩ rfl rfl (by intro l; rcases l with l | ⟨x, l⟩ <;> simp at l)
+  · cases hs
+  · cases hs
+
+/-- a step of the receive loop never touches the send side -/
+theorem ginv_recvStepP {s s' : Sess} (h : GInv s) (hs : recvStepP s = some s') : GInv s' := by
+  have key : s'.sendPc = s.sendPc ∧ s'.q = s.q ∧ s'.delivered = s.delivered ∧ s'.accepted = s.accepted := by
+    unfold recvStepP at hs
+    split at hs
+    · split at hs <;> cases hs; simp
+    · split at hs
+      · cases hs; simp
+      · split at hs <;> cases hs; simp
+    · cases hs; simp
+    · cases hs; simp
+    · cases hs; simp
     · cases hs
-  · cases hs
-    constructor
-    · intro hl
-      have : sendLooping s := by
-        unfold sendLooping at hl ⊢; simpa [hq.2.1] using hl
-      have := g1 this
-      simp only [inflight, hq.1, hq.2.1, hq.2.2.2.1, hq.2.2.2.2.1] at this ⊢
-      exact this
-    · simp only [hq.2.2.2.1, hq.2.2.2.2.1]; exact g2
-  · cases hs
-
-end Nv.C16
-
-namespace Nv.C16
-
-theorem once_of_closes {s : Sess} (hS : SInv s) (h : s.closes ≠ 0) : s.onceDone = true := by
-  obtain ⟨h1, _, h3, _⟩ := hS
-  cases ho : s.onceDone
-  · simp [ho] at h1; omega
-  · rfl
+    · cases hs
+  obtain ⟨k1, k2, k3, k4⟩ := key
+  obtain ⟨g1, g2⟩ := h
+  constructor
+  · intro hl
+    have : sendLooping s := by unfold sendLooping at hl ⊢; rw [k1] at hl; exact hl
+    have := g1 this
+    simp only [inflight, k1, k2, k3, k4] at this ⊢
+    exact this
+  · rw [k3, k4]; exact g2
 
 /-- the completeness invariant, conditional on "nothing but a local Close so far" -/
 def FOk (s : Sess) : Prop := s.faulted = false → FInv s
@@ -139,22 +135,24 @@ theorem fok_env {s : Sess} (h : FOk s) (e : Env) : FOk (envStep s e) := by
     · exact h
     · rename_i hc
       intro hf
-      obtain ⟨f1, f2, f3, f4⟩ := h hf
-      exact ⟨f1, f2, f3, fun hl => by have := (f4 hl).2; simp_all⟩
+      obtain ⟨f1, f2, f3, f4, f5⟩ := h hf
+      exact ⟨f1, f2, f3, fun hl => by have := (f4 hl).2; simp_all, f5⟩
   case close =>
     intro hf
-    obtain ⟨f1, f2, f3, f4⟩ := h hf
-    exact ⟨f1, f2, f3, fun hl => ⟨(f4 hl).1, rfl⟩⟩
-  case peerDrain => intro hf; obtain ⟨f1, f2, f3, f4⟩ := h hf; exact ⟨f1, f2, f3, f4⟩
-  case peerHold => intro hf; obtain ⟨f1, f2, f3, f4⟩ := h hf; exact ⟨f1, f2, f3, f4⟩
-  case peerData => split <;> (intro hf; obtain ⟨f1, f2, f3, f4⟩ := h hf; exact ⟨f1, f2, f3, f4⟩)
+    obtain ⟨f1, f2, f3, f4, f5⟩ := h hf
+    exact ⟨f1, f2, f3, fun hl => ⟨(f4 hl).1, rfl⟩, f5⟩
+  case peerDrain => intro hf; obtain ⟨f1, f2, f3, f4, f5⟩ := h hf; exact ⟨f1, f2, f3, f4, f5⟩
+  case peerHold => intro hf; obtain ⟨f1, f2, f3, f4, f5⟩ := h hf; exact ⟨f1, f2, f3, f4, f5⟩
+  case peerData => split <;> (intro hf; obtain ⟨f1, f2, f3, f4, f5⟩ := h hf; exact ⟨f1, f2, f3, f4, f5⟩)
   case peerClose => intro hf; simp at hf
   case readFail => split <;> (intro hf; simp at hf)
   case handlerPanic => split <;> (intro hf; simp at hf)
   case writeFail => intro hf; simp at hf
 
+theorem taken_of_closes {s : Sess} (hS : SInv s) (h : s.closes ≠ 0) : s.onceTaken = true :=
+  (hS.fin (once_of_closes hS h)).1
+
 theorem fok_sendStepP {s s' : Sess} (hS : SInv s) (hG : GInv s) (h : FOk s) (hs : sendStepP s = some s') : FOk s' := by
-  have hq := quitP_same s
   unfold sendStepP at hs
   split at hs
   · rename_i hpc
@@ -165,16 +163,16 @@ theorem fok_sendStepP {s s' : Sess} (hS : SInv s) (hG : GInv s) (h : FOk s) (hs 
       · rename_i hcl
         cases hs
         intro hf
-        obtain ⟨f1, f2, f3, f4⟩ := h hf
-        refine ⟨f1, f2, fun _ => Or.inl rfl, fun _ => ⟨?_, hcl⟩⟩
+        obtain ⟨f1, f2, f3, f4, f5⟩ := h hf
+        refine ⟨f1, f2, fun _ => Or.inl ⟨_, rfl⟩, fun _ => ⟨?_, hcl⟩, f5⟩
         have := hG.pending (Or.inl hpc)
         simpa [inflight, hpc, hq'] using this
       · cases hs
     · split at hs <;>
       · cases hs
         intro hf
-        obtain ⟨f1, f2, f3, f4⟩ := h hf
-        refine ⟨f1, f2, fun ho => absurd (f3 ho) hnl, fun hl => ?_⟩
+        obtain ⟨f1, f2, f3, f4, f5⟩ := h hf
+        refine ⟨f1, f2, fun ho => absurd (f3 ho) hnl, fun hl => ?_, f5⟩
         unfold sendLeft at hl; simp_all
   · rename_i x hpc
     have hnl : ¬ sendLeft s := by unfold sendLeft; simp [hpc]
@@ -182,56 +180,71 @@ theorem fok_sendStepP {s s' : Sess} (hS : SInv s) (hG : GInv s) (h : FOk s) (hs 
     · rename_i hcond
       cases hs
       intro hf
-      obtain ⟨f1, f2, f3, f4⟩ := h hf
+      obtain ⟨f1, f2, f3, f4, f5⟩ := h hf
       exfalso
       have hcl : s.closes ≠ 0 := by simp_all
-      exact hnl (f3 (once_of_closes hS hcl))
+      exact hnl (f3 (taken_of_closes hS hcl))
     · split at hs
       · cases hs
         intro hf
-        obtain ⟨f1, f2, f3, f4⟩ := h hf
-        refine ⟨f1, f2, fun ho => absurd (f3 ho) hnl, fun hl => ?_⟩
+        obtain ⟨f1, f2, f3, f4, f5⟩ := h hf
+        refine ⟨f1, f2, fun ho => absurd (f3 ho) hnl, fun hl => ?_, f5⟩
         unfold sendLeft at hl; simp at hl
       · cases hs
   · rename_i hpc
-    cases hs
-    intro hf
-    have hf' : s.faulted = false := by simpa [hq.2.2.2.2.2.2.2.1] using hf
-    obtain ⟨f1, f2, f3, f4⟩ := h hf'
-    have hl : sendLeft s := Or.inl hpc
-    obtain ⟨l1, l2⟩ := f4 hl
-    refine ⟨?_, Or.inr ?_, fun _ => Or.inr rfl, fun _ => ⟨?_, ?_⟩⟩
-    · simpa [hq.2.2.2.2.2.1, hq.2.2.2.2.2.2.1] using f1
-    · simpa using hq.2.2.2.2.2.2.2.2.1
-    · simpa [hq.2.2.2.1, hq.2.2.2.2.1] using l1
-    · simpa using hq.2.2.2.2.2.2.2.2.2.1 l2
+    have hl : sendLeft s := Or.inl ⟨_, hpc⟩
+    split at hs
+    · cases hs; intro hf; obtain ⟨f1, f2, f3, f4, f5⟩ := h hf
+      exact ⟨f1, f2, fun _ => Or.inr rfl, fun _ => f4 hl, f5⟩
+    · split at hs
+      · cases hs
+      · cases hs; intro hf; obtain ⟨f1, f2, f3, f4, f5⟩ := h hf
+        exact ⟨f1, Or.inr rfl, fun _ => Or.inl ⟨_, rfl⟩, fun _ => f4 hl, f5⟩
+  · rename_i hpc
+    have hl : sendLeft s := Or.inl ⟨_, hpc⟩
+    cases hs; intro hf; obtain ⟨f1, f2, f3, f4, f5⟩ := h hf
+    exact ⟨f1, f2, fun _ => Or.inl ⟨_, rfl⟩, fun _ => f4 hl, f5⟩
+  · rename_i hpc
+    have hl : sendLeft s := Or.inl ⟨_, hpc⟩
+    cases hs; intro hf; obtain ⟨f1, f2, f3, f4, f5⟩ := h hf
+    exact ⟨f1, f2, fun _ => Or.inl ⟨_, rfl⟩, fun _ => ⟨(f4 hl).1, rfl⟩, f5⟩
+  · rename_i hpc
+    have hl : sendLeft s := Or.inl ⟨_, hpc⟩
+    cases hs; intro hf; obtain ⟨f1, f2, f3, f4, f5⟩ := h hf
+    exact ⟨f1, f2, fun _ => Or.inr rfl, fun _ => f4 hl, f5⟩
+  · cases hs
   · cases hs
 
 theorem fok_recvStepP {s s' : Sess} (hS : SInv s) (h : FOk s) (hs : recvStepP s = some s') : FOk s' := by
-  have hq := quitP_same s
   unfold recvStepP at hs
   split at hs
   · split at hs
     · rename_i hcond
       cases hs
       intro hf
-      obtain ⟨f1, f2, f3, f4⟩ := h hf
+      obtain ⟨f1, f2, f3, f4, f5⟩ := h hf
       have hcl : s.closes ≠ 0 := by simp_all
-      have ho := once_of_closes hS hcl
-      exact ⟨f1, Or.inr ho, f3, f4⟩
+      have ho := taken_of_closes hS hcl
+      exact ⟨f1, Or.inr ho, f3, f4, by intro p st e; cases e; rfl⟩
     · cases hs
-  · rename_i p hpc
-    cases hs
-    intro hf
-    have hf' : s.faulted = false := by simpa [hq.2.2.2.2.2.2.2.1] using hf
-    obtain ⟨f1, f2, f3, f4⟩ := h hf'
-    have ho : s.onceDone = true := by
-      rcases f2 with f2 | f2
-      · rw [hpc] at f2; cases f2
-      · exact f2
-    have he := hq.2.2.2.2.2.2.2.2.2.2 ho
-    rw [he]
-    exact ⟨f1, Or.inr ho, f3, f4⟩
+  · -- quitting enter: without a fault the once is already taken (by the send loop): blocked, or it leaves
+    rename_i p hpc
+    split at hs
+    · cases hs; intro hf; obtain ⟨f1, f2, f3, f4, f5⟩ := h hf
+      have ho : s.onceTaken = true := by rcases f2 with f2 | f2; (rw [hpc] at f2; cases f2); exact f2
+      exact ⟨f1, Or.inr ho, f3, f4, by intro p st e; cases e⟩
+    · split at hs
+      · cases hs
+      · rename_i ht
+        cases hs; intro hf; obtain ⟨f1, f2, f3, f4, f5⟩ := h hf
+        exfalso
+        rcases f2 with f2 | f2
+        · rw [hpc] at f2; cases f2
+        · simp [f2] at ht
+  · rename_i p hpc; cases hs; intro hf; have := (h hf).rown p _ hpc; cases this
+  · rename_i p hpc; cases hs; intro hf; have := (h hf).rown p _ hpc; cases this
+  · rename_i p hpc; cases hs; intro hf; have := (h hf).rown p _ hpc; cases this
+  · cases hs
   · cases hs
 
 end Nv.C16
